@@ -495,7 +495,7 @@ def make_make_email_data(to, cc=None, bcc=None, subject=None, body=None):
     for key, val in (('subject', subject), ('body', body)):
         if val is not None:
             data.append(f'{delim}{key}={quote(val.encode("utf-8"))}')
-        delim = '&'
+            delim = '&'
     return ''.join(data)
 
 
